@@ -547,6 +547,16 @@ class Interp:
         memo = self.__dict__.setdefault("_assumed", {})
         if id(v) in memo:
             return memo[id(v)][1]
+        # the complementary comparison of the same operands ('x is None' vs 'x is not None', '==' vs '!=', '<' vs '>=')
+        # was decided earlier on this path: this one is its negation
+        if isinstance(v, Term) and v.op == "cmp" and len(v.args) >= 3:
+            opp = {"is": "is not", "is not": "is", "==": "!=", "!=": "==", "<": ">=", ">=": "<", ">": "<=", "<=": ">", "in": "not in", "not in": "in"}.get(v.args[0])
+            if opp is not None:
+                for (w, res_) in list(memo.values()):
+                    if isinstance(w, Term) and w.op == "cmp" and len(w.args) >= 3 and w.args[0] == opp and w.args[1] is v.args[1] and (w.args[2] is v.args[2] or same_value(w.args[2], v.args[2]) is True):
+                        memo[id(v)] = (v, not res_)
+                        self.emit("assume", node, cond=v, truth=not res_, derived=True)
+                        return not res_
         c = self.choose(2, "branch")
         res = c == 0
         memo[id(v)] = (v, res)
@@ -925,6 +935,29 @@ class Interp:
             if frame.fi is not None and _declared_nonlocal(frame.fi.node, target.id):
                 owner = frame.parent.owner_of(target.id) or frame if frame.parent else frame
             owner.env[target.id] = v
+            return
+        if isinstance(target, (ast.Tuple, ast.List)) and any(isinstance(t_, ast.Starred) for t_ in target.elts):
+            stars = [i for i, t_ in enumerate(target.elts) if isinstance(t_, ast.Starred)]
+            seq = None
+            if isinstance(v, (Tup, Lst)):
+                seq = list(v.items)
+            elif isinstance(v, Term) and v.op == "call" and isinstance(v.args[0], Term) and v.args[0].op == "attr" and v.args[0].args[1] == "groups":
+                rx = getattr(v.args[0].args[0], "regex", None)
+                if rx is not None:
+                    import re as _re
+                    try:
+                        seq = [Term("unpack", v, i) for i in range(_re.compile(rx[0]).groups)]
+                    except _re.error:
+                        seq = None
+            if len(stars) != 1 or seq is None or len(seq) < len(target.elts) - 1:
+                raise Undecided(f"starred unpacking of a sequence of unknown length line {st.lineno}")
+            k = stars[0]
+            after = len(target.elts) - k - 1
+            for t_, x in zip(target.elts[:k], seq[:k]):
+                self.assign(t_, x, frame, st)
+            self.assign(target.elts[k].value, Lst(seq[k:len(seq) - after]), frame, st)
+            for t_, x in zip(target.elts[k + 1:], seq[len(seq) - after:]):
+                self.assign(t_, x, frame, st)
             return
         if isinstance(target, (ast.Tuple, ast.List)):
             items = None
@@ -1309,7 +1342,10 @@ class Interp:
                 parts.append(str(v.value))
             else:
                 val = self.eval(v.value, frame)
-                spec = ast.unparse(v.format_spec)[2:-1] if v.format_spec is not None else ""
+                spec = ""
+                if v.format_spec is not None:
+                    sv = self.eval(v.format_spec, frame)  # f"{x:0{n}d}": the spec is itself a formatted string
+                    spec = sv.v if isinstance(sv, Const) and isinstance(sv.v, str) else ast.unparse(v.format_spec)[2:-1]
                 if isinstance(val, Const) and not spec and v.conversion == -1 and isinstance(val.v, (str, int)):
                     parts.append(str(val.v))
                 elif isinstance(val, Term) and val.op == "fstr" and not spec and v.conversion == -1:
@@ -1375,11 +1411,23 @@ class Interp:
                     "Add": lambda a, b: a + b, "Sub": lambda a, b: a - b, "Mult": lambda a, b: a * b,
                     "Div": lambda a, b: a / b, "Mod": lambda a, b: a % b, "FloorDiv": lambda a, b: a // b,
                     "BitOr": lambda a, b: a | b, "BitAnd": lambda a, b: a & b, "LShift": lambda a, b: a << b,
+                    "Pow": lambda a, b: a ** b if abs(b) <= 64 else None,
                 }.get(op)
                 if f is not None:
                     return Const(f(l.v, r.v))
             except Exception:
                 pass
+        if op == "Add" and (isinstance(l, Term) and l.op == "fstr" or isinstance(r, Term) and r.op == "fstr"):
+            # text built piecewise: concatenation of formatted strings stays one formatted string
+            def parts_(x):
+                if isinstance(x, Term) and x.op == "fstr":
+                    return list(x.args)
+                if isinstance(x, Const) and isinstance(x.v, str):
+                    return [x.v]
+                return None
+            pl, pr = parts_(l), parts_(r)
+            if pl is not None and pr is not None:
+                return Term("fstr", *(pl + pr))
         if op == "Add" and isinstance(l, Tup) and isinstance(r, Tup):
             return Tup(l.items + r.items)
         if op == "Add" and isinstance(l, Lst) and isinstance(r, Lst):
@@ -2083,6 +2131,10 @@ class Interp:
                 x = Term("exc", "StopIteration")
                 self.emit("raise", node, value=x)
                 raise _Raise(x, node)
+        if name == "range" and 1 <= len(args) <= 3 and not kwargs and all(isinstance(x, Const) and isinstance(x.v, int) and not isinstance(x.v, bool) for x in args):
+            r_ = range(*[x.v for x in args])
+            if len(r_) <= 64:
+                return Lst([Const(i_) for i_ in r_])
         if name == "map" and len(args) == 2 and not kwargs:
             items = self.concrete_iter(args[1])
             if items is not None:
@@ -2389,6 +2441,15 @@ class Interp:
                     raise _Raise(Term("exc", "ValueError"), node)
             if meth == "copy" and not args:
                 return Lst(list(base.items))
+        if isinstance(base, Const) and isinstance(base.v, str) and meth == "join" and len(args) == 1 and not kwargs:
+            items = self.concrete_iter(args[0])
+            if items is not None and items and all((isinstance(x, Const) and isinstance(x.v, str)) or (isinstance(x, Term) and x.op == "fstr") for x in items) and any(isinstance(x, Term) for x in items):
+                parts = []
+                for i_, x in enumerate(items):
+                    if i_:
+                        parts.append(base.v)
+                    parts.extend(x.args if isinstance(x, Term) else [x.v])
+                return Term("fstr", *parts)
         if isinstance(base, Const) and isinstance(base.v, str) and meth in ("startswith", "endswith") and len(args) == 1 and isinstance(args[0], (Tup, Lst)) and all(isinstance(x, Const) and isinstance(x.v, str) for x in args[0].items):
             return Const(getattr(base.v, meth)(tuple(x.v for x in args[0].items)))
         if isinstance(base, Const) and isinstance(base.v, str) and all(isinstance(a, Const) for a in args) and not kwargs:
